@@ -11,6 +11,13 @@ def register(claim, na):
           "ends on parent()==None. This is the whole finite-table content of the property; what the filesystem returns is not decided.",
           "trusts rustc's THIR/MIR, FileType::is_file/is_dir, Path::parent, HashMap/HashSet; directory listing behaviour is not modelled",
           "DESIGN.md section 5 C20")
+    claim("C19", "proof", "cross-table agreement of THIR match tables (to_nix / from_nix / From<i32> / Display / Windows names) with nix's compiled discriminants; MIR def-use for the parsers",
+          "Exhaustive over the finite tables: the seven first-class signals round-trip through to_nix/from_nix/From<i32> with the "
+          "POSIX numbers read from nix's compiled enum, the unix Display string of each is the identifier of its nix variant, "
+          "every name lookup is upper-cased, the Windows table shadows a unix name only for the documented STOP, and the "
+          "ExitStatus -> ProcessEnd arms preserve success / code / signal. Decided by compiler pattern semantics; nothing is executed.",
+          "trusts nix's FromStr/TryFrom<i32> name table, std ExitStatus accessors, rustc THIR/MIR; signal numbers outside the first-class set are delegated to nix",
+          "DESIGN.md section 5 C19")
     for p in ["C01", "C02", "C03", "C04", "C05", "C06", "C07", "C08", "C09", "C10", "C11", "C12", "C13", "C14",
-              "C15", "C16", "C17", "C18", "C19"]:
+              "C15", "C16", "C17", "C18"]:
         na(p, PENDING)
